@@ -4,7 +4,7 @@
    hypothesis [scalar_laws C] (never an axiom), instantiated on the toy curve below. *)
 From V Require Import Base.Prelude Base.Ints Model.Helper Model.Script Model.Pecc Model.Taproot
   Proofs.GroupHyp Proofs.CurveAlg Proofs.TaprootP Proofs.TaprootAlg Proofs.TaprootTamper
-  Proofs.ToyCurve.
+  Proofs.TaprootBytes Proofs.ToyCurve.
 From V Require Dispatch.DC12.
 
 (* (1) PrivateKey.tweaked_key is the discrete log of S256Point.tweaked_key, for every secret in
@@ -122,6 +122,23 @@ Theorem C12_tamper_changes_preimage :
     tweaked_key C sha256 (cb_key cb) root = Ok Q /\ tweaked_key C sha256 (cb_key cb') root' = Ok Q.
 Proof. exact tamper_changes_preimage. Qed.
 Print Assumptions C12_tamper_changes_preimage.
+
+(* every single-byte alteration of a serialized control block that parse still accepts falls
+   under the theorem above: byte 0 changes the recorded parity or the leaf version (the first byte
+   of the TapLeaf preimage); bytes 1..32 change the x-only internal key and nothing else; a later
+   byte changes exactly one 32-byte path hash and nothing else *)
+Theorem C12_tamper_byte_classes :
+  forall (C : curve) raw raw' cb cb',
+  bytes_ok raw -> bytes_ok raw' ->
+  cb_parse C raw = Ok cb -> cb_parse C raw' = Ok cb' ->
+  one_byte_differs raw raw' ->
+  (cb_version cb <> cb_version cb' \/ cb_parity cb <> cb_parity cb') \/
+  (cb_version cb = cb_version cb' /\ cb_parity cb = cb_parity cb' /\
+   xonly (cb_key cb) <> xonly (cb_key cb') /\ cb_hashes cb = cb_hashes cb') \/
+  (cb_version cb = cb_version cb' /\ cb_parity cb = cb_parity cb' /\
+   cb_key cb = cb_key cb' /\ one_differs (cb_hashes cb) (cb_hashes cb')).
+Proof. exact tamper_byte_classes. Qed.
+Print Assumptions C12_tamper_byte_classes.
 
 (* ---- the hypotheses are satisfiable: the toy curve y^2 = x^3 + 7 over F_43 (order 31) ---- *)
 Example C12_toy_tweak_consistent :
